@@ -476,33 +476,45 @@ def oracle(s, obs):
     toks = obs.split()
     if len(toks) != len(s["steps"]) or any(t.split(":")[0] not in ("hit", "reval", "miss", "oic") or "!" in t for t in toks):
         return ("oracle:no-transaction", "a transaction did not complete as scripted: " + obs)
-    held = None     # (recipe, time received) of the response Squid obtained last
+    # (recipe, time received) of the responses Squid may hold: the one obtained last, plus earlier ones whose Date is
+    # later than that of the response obtained last - RFC 9111 section 4 makes the most recent response by Date the
+    # one to use, and Squid ignores a validation reply that is older than the stored response (handleIMSReply).
+    held = []
+
+    def date_of(h):
+        return h[1] + (h[0]["date"] if h[0].get("date") is not None else 0)
+
     for st, t in zip(s["steps"], toks):
         now = s["t0"] + st["dt"]
         kind = t.split(":")[0]
         cc = st.get("cc", [])
         if kind == "hit":
             if "no-cache" in cc or cc_value(cc, "max-age") == 0:
-                imm = held is not None and "immutable" in held[0].get("cc", []) and "no-cache" not in cc
+                imm = bool(held) and all("immutable" in h[0].get("cc", []) for h in held) and "no-cache" not in cc
                 return ("oracle:reload-served-from-cache" + (":immutable" if imm else ":other"),
                         "request with Cache-Control: %s at t0+%d was answered from the cache without contacting the origin"
                         % (", ".join(cc), st["dt"]))
-            if held is not None:
-                rep, recv = held
+            verdicts = []
+            for rep, recv in held:
                 L = explicit_lifetime(rep, recv)
+                v = None
                 if L is not None and now >= recv + L:
                     rcc = rep.get("cc", [])
                     if "must-revalidate" in rcc or "proxy-revalidate" in rcc:
-                        return ("oracle:must-revalidate-stale-hit:" + defect_tag(rep),
-                                "a must-revalidate response (%s) received at t0+%d with lifetime %d s was served at t0+%d without contact"
-                                % (json.dumps(rep), recv - s["t0"], L, st["dt"]))
-                    if cc_value(cc, "max-stale") is None:
-                        return ("oracle:stale-hit:" + defect_tag(rep),
-                                "response received at t0+%d with explicit lifetime %d s (%s) was served from the cache at t0+%d "
-                                "(%d s after receipt) without contacting the origin and without max-stale"
-                                % (recv - s["t0"], L, json.dumps(rep), st["dt"], now - recv))
+                        v = ("oracle:must-revalidate-stale-hit:" + defect_tag(rep),
+                             "a must-revalidate response (%s) received at t0+%d with lifetime %d s was served at t0+%d without contact"
+                             % (json.dumps(rep), recv - s["t0"], L, st["dt"]))
+                    elif cc_value(cc, "max-stale") is None:
+                        v = ("oracle:stale-hit:" + defect_tag(rep),
+                             "response received at t0+%d with explicit lifetime %d s (%s) was served from the cache at t0+%d "
+                             "(%d s after receipt) without contacting the origin and without max-stale"
+                             % (recv - s["t0"], L, json.dumps(rep), st["dt"], now - recv))
+                verdicts.append(v)
+            if verdicts and all(v is not None for v in verdicts):     # stale whichever held response was used
+                return verdicts[-1]
         elif kind in ("reval", "miss"):
-            held = (s["reps"][st["rep"]], now)
+            new = (s["reps"][st["rep"]], now)
+            held = [h for h in held if date_of(h) > date_of(new)] + [new]
     return None
 
 
